@@ -125,9 +125,10 @@ def line_wrap_by_sentence(
     def line_wrapper(text: str, initial_indent: str, subsequent_indent: str) -> str:
         text = text.replace("\n", " ")
 
-        # Handle width <= 0 as "no wrapping"
+        # Handle width <= 0 as "no wrapping". Runs of whitespace are still collapsed, as they
+        # are for every positive width and by the width-based wrapper.
         if width <= 0:
-            return initial_indent + text.strip()
+            return initial_indent + re.sub(r"\s+", " ", text).strip()
 
         lines: list[str] = []
         first_line = True
